@@ -18,6 +18,9 @@ type Event struct {
 	Recv Value  // receiver (for invokes / methods), may be nil
 	Args []Value
 	Res  Value
+	ArgT []types.Type
+	ResT types.Type
+	RecvT types.Type
 	PC   int // length of the path condition when the event happened
 	Pos  string
 	Seq  int
